@@ -283,6 +283,9 @@ def gen_multicommodity(rng, g, name, nodes, f, price_key):
     fac = [1.] + [pick(rng, [0.5, 1., 2., -1., -0.4]) for _ in nodes[1:]]
     a = {'type': 'MultiCommodityContract', 'name': name, 'nodes': list(nodes), 'price': price_key, 'min_cap': r2(lo * f), 'max_cap': r2(hi * f),
          'extra_costs': pick(rng, [0., 0., 0.3]), 'factors_commodities': fac, 'wacc': pick(rng, [0., 0.1])}
+    if len(nodes) >= 2 and rng.random() < 0.15:
+        # the same node listed twice (a unit taking auxiliary power from the node it feeds): two mapping rows of one variable in one (node, step)
+        a['nodes'].append(nodes[0]); a['factors_commodities'].append(pick(rng, [-0.06, -0.25]))
     s, e, k = gen_window(rng, g)
     a['start'], a['end'], a['_window'] = s, e, k
     if rng.random() < 0.4:
@@ -556,6 +559,13 @@ def gen_mixed_portfolio(rng, kinds=ALL_KINDS, g=None, n_assets=(2, 6), n_nodes=(
             if fuel in nds:
                 assets.append({'type': 'SimpleContract', 'name': 'mkt_' + fuel, 'nodes': [fuel], 'price': key, 'min_cap': 0., 'max_cap': 200. * f, 'extra_costs': 0., 'wacc': 0.})
             assets.append(gen_plant(rng, g, ('pl%d' if ty == 'plant' else 'chp%d') % j, nds, f, 'p0', chp=(ty == 'chp'), simple=rng.random() < 0.4, dict_costs=rng.random() < 0.3))
+            if ty == 'chp' and fuel in nds and rng.random() < 0.2:
+                # CHPAsset used as a plain power plant: the documented flag _no_heat with nodes [power, fuel]
+                pa = assets[-1]
+                pa['nodes'] = [nds[0], fuel]; pa['x_no_heat'] = True
+                for kk in ('conversion_factor_power_heat', 'max_share_heat', 'start_ramp_lower_bounds_heat', 'start_ramp_upper_bounds_heat', 'shutdown_ramp_lower_bounds_heat',
+                           'shutdown_ramp_upper_bounds_heat'):
+                    pa.pop(kk, None)
             if window and rng.random() < 0.3:
                 # a plant with a lifetime of its own inside / across the horizon
                 s_, e_, _k = gen_window(rng, g, kinds=['inside', 'inside', 'straddle_start', 'straddle_end', 'start_only', 'end_only'])
@@ -610,6 +620,9 @@ def gen_mixed_portfolio(rng, kinds=ALL_KINDS, g=None, n_assets=(2, 6), n_nodes=(
                 a = gen_contract(rng, g, 'co%d' % j, pick(rng, nodes), f, key, window=window, take=False, dict_caps=False)
             a['freq'] = cf; a['wacc'] = 0.
             a['name'] = 'co%d' % j
+            if base == 'storage' and mip_ok and rng.random() < 0.3:
+                # own coarser frequency together with the no-simultaneous option (appended boolean variables)
+                a['no_simult_in_out'] = True; a['eff_in'] = 0.9; a['size'] = max(a['size'], 5.)
             assets.append(a)
         elif ty == 'periodic' and g['freq'] in PERIOD_OF and equal_steps(g) and T >= 8:
             per, dur = pick(rng, PERIOD_OF[g['freq']])
